@@ -1190,6 +1190,15 @@ fn gen_c05(ctx: &mut Ctx) {
         let want = format!("{} | left=0", msgs.iter().map(|m| format!("OK {}", m)).collect::<Vec<_>>().join(" ; "));
         ctx.monitor(res == want, "C05-roundtrip", &line[..line.len().min(300)], &res[..res.len().min(200)]);
     }
+    // every data length 0..=255 through the stream functions, as a data chunk and as a frame of an unassigned type
+    for len in 0..=255usize {
+        let d = rng.bytes(len);
+        let msgs = vec![format!("SD.{}.{}", len * 16 % 65536, hex_of_bytes(&d)), format!("UN.{}.9.{}", 3 + len, if d.is_empty() { "-".to_string() } else { hex_of_bytes(&d) }), "HE.3".to_string()];
+        let line = format!("WIRES {}", msgs.join(" "));
+        let res = ctx.case(line.clone(), true, "stream-every-data-length");
+        let want = format!("{} | left=0", msgs.iter().map(|m| format!("OK {}", m)).collect::<Vec<_>>().join(" ; "));
+        ctx.monitor(res == want, "C05-roundtrip", &line[..line.len().min(300)], &res[..res.len().min(200)]);
+    }
     // many threads at once: a thread must never get another thread's message back
     for (threads, iters) in [(8usize, 3000usize), (16, 1500)] {
         let line = format!("MT {} {}", threads, iters);
